@@ -1,6 +1,7 @@
 package c05
 
 import (
+	"bytes"
 	"crypto/sha256"
 	"encoding/binary"
 	"encoding/hex"
@@ -10,6 +11,7 @@ import (
 	"testing"
 	"time"
 
+	"github.com/sarchlab/akita/v4/tracing"
 	"github.com/sarchlab/mgpusim/v4/amd/driver"
 	"github.com/sarchlab/mgpusim/v4/amd/insts"
 	"pgregory.net/rapid"
@@ -56,6 +58,11 @@ type FlushCase struct {
 	SmallBytes int    `json:"small_bytes"`
 	K          uint32 `json:"k"`
 	Seed       uint32 `json:"seed"`
+	// Rounds (0 = 1): the dirtying kernel and the read-back of the small buffer are repeated
+	Rounds int `json:"rounds,omitempty"`
+	// SmallDist: the two pages of the small buffer lie on GPU 1 and GPU 2 (Driver.Distribute), so
+	// the read-back has pages on both GPUs
+	SmallDist bool `json:"small_dist,omitempty"`
 }
 
 func genHCase(t *rapid.T) HCase {
@@ -188,6 +195,13 @@ type flushArgs struct {
 // one schedule. MemHash covers everything the application read; Err says whether what it read
 // is what the history prescribes.
 func runFlushOnce(c HCase, s Schedule) (obs Observables, inconclusive bool) {
+	return runFlushHistory(c.Flush, c.GPUType, false, s)
+}
+
+// runFlushHistory runs a flush history under one schedule. syncHandoff: after every blocking call
+// the application waits until the simulation thread has run out of events (as in stage
+// schedules), which makes simulated times comparable between runs.
+func runFlushHistory(f *FlushCase, gpuType string, syncHandoff bool, s Schedule) (obs Observables, inconclusive bool) {
 	containCrashes()
 	old := runtime.GOMAXPROCS(s.GOMAXPROCS)
 	defer runtime.GOMAXPROCS(old)
@@ -198,15 +212,27 @@ func runFlushOnce(c HCase, s Schedule) (obs Observables, inconclusive bool) {
 		}
 		h.plan[p.Point][p.Nth] = p.SleepUS
 	}
-	f := c.Flush
-	pl, err := plat.New(plat.Spec{Timing: true, GPUType: c.GPUType, NumGPUs: 2})
+	pl, err := plat.New(plat.Spec{Timing: true, GPUType: gpuType, NumGPUs: 2})
 	if err != nil {
 		panic(fmt.Sprintf("harness: %v", err))
 	}
+	ct := &cmdTracer{eng: pl.Engine, open: map[string]int{}}
+	tracing.CollectTrace(pl.Driver, ct)
 	driver.VerifSetYieldHook(h.hook)
 	defer driver.VerifSetYieldHook(nil)
 	d := pl.Driver
 	d.Run()
+	settle := func() {
+		if syncHandoff {
+			for atomic.LoadInt64(&h.starts) != atomic.LoadInt64(&h.exits) {
+				time.Sleep(50 * time.Microsecond)
+			}
+		}
+	}
+	rounds := f.Rounds
+	if rounds < 1 {
+		rounds = 1
+	}
 	const page = 4096
 	small := make([]byte, 2*page)
 	for i := range small {
@@ -228,18 +254,30 @@ func runFlushOnce(c HCase, s Schedule) (obs Observables, inconclusive bool) {
 		ctx := d.Init()
 		d.SelectGPU(ctx, f.SmallGPU)
 		dSmall := d.AllocateMemory(ctx, 2*page)
+		if f.SmallDist {
+			d.Distribute(ctx, dSmall, 2*page, []int{1, 2})
+		}
 		d.SelectGPU(ctx, f.DirtyGPU)
 		dDirty := d.AllocateMemory(ctx, uint64(f.DirtyPages*page))
 		d.MemCopyH2D(ctx, dSmall, small)
+		settle()
 		q := d.CreateCommandQueue(ctx)
-		d.EnqueueLaunchKernel(q, flushStoreKernel(), [3]uint32{uint32((lines + 255) / 256 * 256), 1, 1}, [3]uint16{256, 1, 1},
-			&flushArgs{Out: dDirty, N: uint32(lines), K: f.K})
-		d.DrainCommandQueue(q)
-		got := make([]byte, f.SmallBytes)
-		d.MemCopyD2H(ctx, got, dSmall+driver.Ptr(f.SmallOff))
-		r := result{gotSmall: append([]byte(nil), got...)}
+		var r result
+		for round := 0; round < rounds; round++ {
+			d.EnqueueLaunchKernel(q, flushStoreKernel(), [3]uint32{uint32((lines + 255) / 256 * 256), 1, 1}, [3]uint16{256, 1, 1},
+				&flushArgs{Out: dDirty, N: uint32(lines), K: f.K})
+			d.DrainCommandQueue(q)
+			settle()
+			got := make([]byte, f.SmallBytes)
+			d.MemCopyD2H(ctx, got, dSmall+driver.Ptr(f.SmallOff))
+			settle()
+			if round == 0 || !bytes.Equal(got, r.gotSmall) {
+				r.gotSmall = append([]byte(nil), got...)
+			}
+		}
 		tail := make([]uint32, 16*64) // the last 64 lines of the dirty buffer
 		d.MemCopyD2H(ctx, tail, dDirty+driver.Ptr(f.DirtyPages*page-len(tail)*4))
+		settle()
 		r.gotTail = append([]uint32(nil), tail...)
 		done <- r
 	}()
@@ -259,6 +297,10 @@ func runFlushOnce(c HCase, s Schedule) (obs Observables, inconclusive bool) {
 		time.Sleep(time.Millisecond)
 	}
 	obs.Fired = h.fired
+	obs.EndTime = float64(pl.Engine.CurrentTime())
+	for _, t := range ct.tasks {
+		obs.Commands = append(obs.Commands, fmt.Sprintf("%s %.12g..%.12g", t.What, float64(t.Start), float64(t.End)))
+	}
 	defer func() {
 		d.Terminate()
 		pl.Close()
